@@ -50,9 +50,11 @@ def run(ck, progs):
                      "exhaustive small domain and a recognised shape), each branch moves a bound strictly past the midpoint, and new arenas are "
                      "inserted in address order")
     ck.rule("C12.7", "buddy-tree bookkeeping on small order values: every node starts with order total - depth; the search goes right exactly when the left subtree cannot hold the request; freeing sets the parent to order + 1 only when both halves are wholly free, else to the larger; the size reported for a freed block is 1 << its order")
+    ck.rule("C12.8", "the requested size reaches the size-class computation at full width: no narrowing conversion is applied to the size itself (requests of 4 GiB and more must fail, not be served as their low 32 bits)")
     for cfg, P in progs.items():
         from .. import rules_buddy
         rules_buddy.check(ck, P, "C12.7")
+        rules_buddy.check_no_narrowing(ck, P, "C12.8")
         _find_by_address(ck, P, cfg)
         _index_arithmetic(ck, P, cfg)
         _clean_failure(ck, P, cfg)
